@@ -304,10 +304,12 @@ fn short(p: &rf::Packet) -> String {
 
 pub fn run_c02(tier: &str, seed: u64) -> i32 {
     let codec = c02_report(tier, seed);
-    match crate::check::engine_report("C02", tier, seed, if tier == "thorough" { 3000 } else { 600 }) {
-        Some(engine) => codec.merge(engine, "codec_fuzz", "engine_wire").finish(),
-        None => codec.finish(),
-    }
+    let mut rep = match crate::check::engine_report("C02", tier, seed, if tier == "thorough" { 3000 } else { 600 }) {
+        Some(engine) => codec.merge(engine, "codec_fuzz", "engine_wire"),
+        None => codec,
+    };
+    if tier == "thorough" || std::env::var("VERIF_MIRI").is_ok() { crate::miri::add_miri(&mut rep, &[("encode", 4)]); }
+    rep.finish()
 }
 
 pub fn c02_report(tier: &str, seed: u64) -> crate::report::Report {
@@ -567,7 +569,8 @@ pub fn run_c03(tier: &str, seed: u64) -> i32 {
         gates: vec![("c03.faithful_streams", if quick { 30_000 } else { 800_000 }), ("c03.hostile_streams", if quick { 30_000 } else { 800_000 }), ("c03.size_probes", if quick { 10_000 } else { 300_000 })],
         budget_s: if quick { 600 } else { 3000 },
     };
-    run_cases(plan, tier, seed, move |_idx, r, l| {
+    let thorough = !quick;
+    let mut rep = cases_report(plan, tier, seed, move |_idx, r, l| {
         let v5 = r.chance(2, 3);
         let big = r.chance(1, if quick { 15 } else { 6 });
         // (a) faithful
@@ -672,7 +675,9 @@ pub fn run_c03(tier: &str, seed: u64) -> i32 {
                 l.violation("C03.R6-packet-within-limit-rejected-at-header", &[("at_limit", (total == max as u64).to_string())], format!("fixed header announces {} bytes, maximum {} : rejected: {:?}", total, max, run.error), replay_s);
             }
         }
-    })
+    });
+    if thorough || std::env::var("VERIF_MIRI").is_ok() { crate::miri::add_miri(&mut rep, &[("decode", 4)]); }
+    rep.finish()
 }
 
 pub fn replay_decode(doc: &Value, path: &str) -> i32 {
